@@ -104,6 +104,16 @@ def run_harness(ctx, scenarios, label, shards=None, race=False, timeout=900):
         for p, out, pr in ex.map(one, files):
             if 'WARNING: DATA RACE' in pr.stderr:
                 racelog.append(pr.stderr[-6000:])
+            elif pr.returncode != 0 and ('all goroutines are asleep' in pr.stderr or 'fatal error:' in pr.stderr or 'panic:' in pr.stderr) \
+                    and 'github.com/dgrr/http2.' in pr.stderr:
+                # the Go runtime gave up on the process with the library on the stack (global deadlock, fatal error,
+                # panic outside any recover): a fact about the code under test, judged by crashed() below
+                if not hasattr(ctx, 'crashes'):
+                    ctx.crashes = []
+                ctx.crashes.append((p, pr.stderr[-6000:]))
+                if os.path.exists(out):
+                    os.remove(out)          # whatever it wrote before dying may end in half a line
+                continue
             elif pr.returncode != 0:
                 raise vlib.Inconclusive('h2v cli failed on %s rc=%d: %s' % (p, pr.returncode, (pr.stdout + pr.stderr)[-2000:]))
             if os.path.exists(out):
@@ -271,6 +281,17 @@ def gen_c02_extra(ctx, thorough):
                 L = 30000 + (k * mfs - b0) + d
                 steps = [call(1, fields=[["x-fill", "Z" * L]]), call(2, fields=[["x-after", "1"]]), resp(1, es=True), resp(2, es=True)]
                 out.append({'tag': 'reqblock-fills-frame', 'cfg': cfg, 'steps': steps})
+    # SETTINGS_HEADER_TABLE_SIZE changes arriving while requests are being encoded: every block still decodes, with the
+    # size update (if any) at its beginning
+    for rep in range(30 if thorough else 10):
+        big = [["x-h%d" % i, "value-%d-%s" % (i, "q" * 40)] for i in range(30)]
+        burst, n = [], 0
+        for j in range(10):
+            burst.append({"op": "settings", "pairs": [[1, rng.choice([0, 64, 512, 4096])]]})   # delivered at the moment of the call that follows
+            n += 1
+            burst.append(call(n, fields=big[j % 5:] + [["x-rep", str(rep)]]))
+        steps = [{"op": "burst", "steps": burst}] + [resp(i, es=True) for i in range(1, n + 1)]
+        out.append({'tag': 'hts-race', 'cfg': {}, 'steps': steps})
     # connection-specific request fields must not reach the server, the rest must
     steps = [call(1, fields=[["connection", "keep-alive"], ["keep-alive", "timeout=5"], ["proxy-connection", "x"], ["upgrade", "h2c"], ["x_under", "1"], ["x-keep", "yes"]]), resp(1, es=True)]
     out.append({'tag': 'connspecific', 'cfg': {}, 'steps': steps})
@@ -306,6 +327,20 @@ def gen_c07_extra(ctx, thorough):
                      {"op": "settings", "pairs": [[5, m2]]}, {"op": "wu", "req": 1, "inc": 120000}, {"op": "wu", "req": 0, "inc": 300000},
                      {"op": "wu", "req": 2, "inc": 120000}, resp(1, es=True), resp(2, es=True)]
             out.append({'tag': 'mfs-midbody', 'cfg': {}, 'steps': steps})
+    # window changes that arrive while the write loop is in the middle of writeRequest (parked in a blocking hook): whatever
+    # the server grants in that gap counts - the body goes on as far as the ledger allows once the loop is released
+    for gate in ('wr.afterid', 'wr.beforepending', 'wr.afterheaders'):
+        for kind in ('buf', 'stream'):
+            evs = [[{"op": "settings", "pairs": [[4, 100000]]}], [{"op": "settings", "pairs": [[4, 1000]]}, {"op": "settings", "pairs": [[4, 90000]]}],
+                   [{"op": "wu", "req": 0, "inc": 50000}]]
+            if gate == 'wr.afterheaders':
+                evs += [[{"op": "wu", "req": 2, "inc": 50000}], [{"op": "wu", "req": 2, "inc": 1}, {"op": "wu", "req": 2, "inc": 70000}, {"op": "wu", "req": 0, "inc": 70000}]]
+            for ev in evs:
+                c2 = call(2, n=150000, kind=kind)
+                c2["gate"] = gate
+                steps = [call(1), c2] + [dict(e) for e in ev] + [{"op": "ungate"}, {"op": "wu", "req": 0, "inc": 1}, resp(1, es=True),
+                         {"op": "wu", "req": 2, "inc": 300000}, {"op": "wu", "req": 0, "inc": 300000}, resp(2, es=True)]
+                out.append({'tag': 'gate-window', 'cfg': {}, 'steps': steps})
     # three uploads share the connection window
     steps = [call(1, n=40000), call(2, n=40000, kind='stream'), call(3, n=40000, kind='streamcl')]
     for k in range(8):
@@ -362,15 +397,22 @@ def gen_gate_goaway(ctx, thorough):
     never written) or go out and be answered - never be left on a stream nobody will answer."""
     out = []
     for gate in ('wr.afterid', 'wr.beforepending', 'wr.afterheaders'):
-        for body in (0, 3000):
+        for body, kind in ((0, 'buf'), (3000, 'buf'), (3000, 'stream'), (70000, 'streamcl')):
             if gate == 'wr.beforepending' and not body:
                 continue
             for ev in ({"op": "goaway", "code": 0, "last": 0, "lastreq": 1}, {"op": "goaway", "code": 0, "last": 0}, {"op": "goaway", "code": 2, "last": 0, "lastreq": 1},
                        {"op": "srvclose"}, {"op": "close"}, {"op": "rst", "req": 1, "code": 2}, {"op": "settings", "pairs": [[3, 1]]}):
-                c2 = call(2, n=body, kind='buf')
+                c2 = call(2, n=body, kind=kind)
                 c2["gate"] = gate
                 steps = [call(1), c2, dict(ev), {"op": "ungate"}, resp(1, es=True), call(3)]
                 out.append({'tag': 'gate-goaway', 'cfg': {}, 'steps': steps})
+    # the other side of the handshake: the READ loop is parked between raising the flag and sweeping the table while the
+    # write loop takes a new request through all of writeRequest
+    for body, kind in ((0, 'buf'), (3000, 'buf'), (3000, 'stream')):
+        for ga in ({"op": "goaway", "code": 0, "last": 0, "lastreq": 1}, {"op": "goaway", "code": 0, "last": 0}):
+            g = dict(ga); g["gate"] = "rl.goaway.flagged"
+            steps = [call(1), g, call(2, n=body, kind=kind), {"op": "ungate"}, resp(1, es=True), call(3)]
+            out.append({'tag': 'gate-goaway-rl', 'cfg': {}, 'steps': steps})
     return out
 
 
@@ -562,6 +604,26 @@ def build(ctx, pid):
     return scen, nmodel, props
 
 
+def crashed(ctx, props, label):
+    """A harness process that the Go runtime killed with the library on the stack.  C12 owns the verdict ("the process
+    never panics or deadlocks"); it is confirmed by running that shard of scenarios once more."""
+    for p, log in getattr(ctx, 'crashes', []):
+        kind = 'deadlocked' if 'all goroutines are asleep' in log else 'crashed'
+        if 'C12' not in props:
+            raise vlib.Inconclusive('h2v cli %s on %s (C12 owns this verdict):\n%s' % (kind, p, log[-1500:]))
+        exe = ctx.harness()
+        pr = subprocess.run([exe, 'cli', '--in', p, '--out', p + '.again'], cwd=ctx.scratch, stdout=subprocess.PIPE, stderr=subprocess.PIPE, text=True, timeout=900)
+        if pr.returncode != 0 and 'github.com/dgrr/http2.' in pr.stderr:
+            scen = [json.loads(l) for l in open(p)]
+            lines = [l for l in log.splitlines() if 'github.com/dgrr/http2.' in l][:8]
+            ctx.report('C12:process-' + kind, '%s: C12:process-%s (the Go runtime stopped the harness process; library frames: %s)' % (label, kind, ' | '.join(x.strip() for x in lines)[:400]),
+                       {'kind': 'cli-shard', 'clause': 'C12:process-' + kind, 'scenarios': scen, 'log': log[-3000:]})
+        else:
+            ctx.extra.setdefault('unconfirmed_clauses', []).append('process %s in %s' % (kind, os.path.basename(p)))
+            print('UNCONFIRMED property=%s clause=C12:process-%s (not reproduced; not counted)' % (ctx.prop, kind), flush=True)
+    ctx.crashes = []
+
+
 def run(ctx, pid, id_offset=0):
     scen, nmodel, props = build(ctx, pid)
     for i, s in enumerate(scen):
@@ -571,6 +633,7 @@ def run(ctx, pid, id_offset=0):
                  '(tags %s) replayed into a real http2.Conn against a scripted x/net server peer.' % (nmodel, len(scen) - nmodel, sorted({s['tag'] for s in scen})))
     tr, _ = run_harness(ctx, scen, pid.lower() + 'cli')
     judge(ctx, scen, tr, props, label=pid.lower() + '-cli')
+    crashed(ctx, props, pid.lower() + '-cli')
     for s in scen[:1] + scen[nmodel:nmodel + 1]:
         ctx.sample({'tag': s['tag'], 'abstract': s.get('abs'), 'steps': s['steps'][:12]})
     return scen
